@@ -5846,7 +5846,11 @@ class CodegenCtx:
             output_length_expr = self._generate_buflike_length_expr(action.into_storage)
             # Check if we need to allocate
             if self._needs_on_demand_alloc(action.into_storage) and self._is_dynamic(action.into_storage):
-                result.add(f"if (!state->c.{action.into_storage.name}) state->c.{action.into_storage.name} = malloc({output_length_expr});")
+                if action.into_storage.holds_a(OutputStorageType.STR) and action.into_storage.str_null:
+                    # the append itself may still run out of space (or jump away) before anything is written: keep the empty string terminated
+                    result.add(f"if (!state->c.{action.into_storage.name}) {{ state->c.{action.into_storage.name} = malloc({output_length_expr}); state->c.{action.into_storage.name}[0] = 0; }}")
+                else:
+                    result.add(f"if (!state->c.{action.into_storage.name}) state->c.{action.into_storage.name} = malloc({output_length_expr});")
             # We treat the size given in by the user as including a terminating null (if requested, anyways)
             max_length_expr = self._generate_buflike_length_expr(action.into_storage, include_null=True)
             result.add(f"if (state->{action.into_storage.name}_counter == {max_length_expr}) {{")
